@@ -1,6 +1,7 @@
 import SageModel.Proto
 import SageModel.Generated.Consts
 import SageModel.Model.C06
+import SageModel.Model.C05
 
 /-! Driver ops for C06.
 
@@ -20,6 +21,16 @@ dbforms <seq:hex> <max> <f32 lo> <f32 hi> <vars as above> <statics as above>
         (Parameters::digest on a one-protein FASTA, whole protein = one peptide, Position::Full; sorted and
          de-duplicated; first with the bounds [lo, hi], then with [-inf, +inf])
 ```
+dbdigest <7 opt EnzymeBuilder fields as in C05's `digest`: mc min_len max_len cleave:hex restrict c_terminal semi>
+         <protein:hex> <max> <f32 lo> <f32 hi> <vars> <statics>
+   | panic | ok <n> {<seq:hex> form} <nall> {<seq:hex> form}
+        (Parameters::digest on a one-protein FASTA digested with a real enzyme: N-terminal, C-terminal,
+         internal and full-length peptides; sorted by (sequence, form) and de-duplicated; bounds [lo, hi], then
+         [-inf, +inf]. The expected peptides and their positions come from C05's model of the digestion.)
+pepdisplay <same arguments as apply>
+   | err:invalid | ok <ntab> {<f32> <text:hex>} <nforms> {form <display:hex>}
+        (`to_string()` of every form; the `{:+}` text of each shown mass is data. The model recomputes every
+         display string from the implementation's own fields with `display` and the table as `fmt`.)
 All float comparisons are bit-exact (only `+` in a fixed order is involved).
 -/
 namespace Sage.C06
@@ -120,6 +131,41 @@ def formsVerdict (seq : List Nat) (pos : Position) (varsQ staticsQ : List (Targe
 
 def ratMods (l : List (Target × Nat)) : Option (List (Target × Rat)) :=
   allSome (l.map fun tm => (ratOfF32Bits tm.2).map fun q => (tm.1, q))
+
+/-- C05's position as C06's -/
+def posOf5 : Sage.C05.Position → Position
+  | .nterm => .nterm | .cterm => .cterm | .full => .full | .internal => .internal
+
+def pBuilder5 : P Sage.C05.Builder := do
+  let mc ← opt nat
+  let mn ← opt nat
+  let mx ← opt nat
+  let cl ← opt bytes
+  let sk ← opt nat
+  let ct ← opt bool
+  let se ← opt bool
+  pure ⟨mc, mn, mx, cl, sk.map Nat.toUInt8, ct, se⟩
+
+/-- sort key / wire text of a peptide form of a digested protein: sequence, then the form -/
+def pepToks (p : Peptide Float32) : List Nat := p.sequence.length :: p.sequence ++ formToks p
+
+def renderPeps (fs : List (Peptide Float32)) : String :=
+  let toks := ((fs.map fun p => (pepToks p, p)).mergeSort fun a b => lexLe a.1 b.1)
+  let rec dd : List (List Nat × Peptide Float32) → List (List Nat × Peptide Float32)
+    | a :: b :: rest => if a.1 == b.1 then dd (b :: rest) else a :: dd (b :: rest)
+    | l => l
+  let toks := dd toks
+  " ".intercalate (toString toks.length :: toks.map fun t =>
+    hex (t.2.sequence.map Nat.toUInt8) ++ " " ++ " ".intercalate ((formToks t.2).map toString))
+
+def wirePep : P (List Nat × WireForm) := do
+  let s ← bytes
+  let w ← wireForm
+  pure (s.map (·.toNat), w)
+
+def wireToks (w : WireForm) : List Nat :=
+  (match w.nterm with | none => [0] | some x => [1, x]) ++ [w.mods.length] ++ w.mods ++
+  (match w.cterm with | none => [0] | some x => [1, x]) ++ [w.mono]
 
 def handle (op : String) (args impl : List String) : Option Reply :=
   match op with
@@ -242,6 +288,97 @@ def handle (op : String) (args impl : List String) : Option Reply :=
             formsVerdict seq .full varsQ staticsQ max got false
           | _, _, _ => "na"
       | _ => "bad:reply_unreadable"
+    pure (exact model (" ".intercalate impl) spec)
+  | "pepdisplay" => do
+    let (pos, seq, _max, _vars, _statics) ← run (do
+      let pos ← position; let seq ← bytes; let max ← nat; let v ← varMods; let s ← staticMods
+      pure (pos, seq.map (·.toNat), max, v, s)) args
+    match impl with
+    | "ok" :: rest =>
+      match run (do
+          let tab ← list (do let b ← nat; let t ← bytes; pure (b, t.map (·.toNat)))
+          let rows ← list (do let w ← wireForm; let d ← bytes; pure (w, d.map (·.toNat)))
+          pure (tab, rows)) rest with
+      | none => pure { model := "unreadable", agree := false, spec := "bad:reply_unreadable" }
+      | some (tab, rows) =>
+        let fmt (m : Float32) : List Nat := (tab.lookup m.toBits.toNat).getD [63]
+        let pepOf (w : WireForm) : Peptide Float32 :=
+          { position := pos, sequence := seq, mods := w.mods.map f32b, nterm := w.nterm.map f32b,
+            cterm := w.cterm.map f32b, mono := f32b w.mono }
+        let model := "ok " ++ outList (fun bt => s!"{bt.1} {hex (bt.2.map Nat.toUInt8)}") tab ++ " " ++
+          outList (fun (wd : WireForm × List Nat) =>
+            " ".intercalate ((wireToks wd.1).map toString) ++ " " ++ hex ((display fmt (pepOf wd.1)).map Nat.toUInt8)) rows
+        -- spec: the premises of `display_determines` hold for the real float text on the masses shown,
+        -- and its conclusion: different forms never share a display string
+        let texts := tab.map (·.2)
+        let spec :=
+          if !(tryFrom H2Of tableF pos seq).isSome then "bad:invalid_sequence_accepted"
+          else if texts.any (·.contains 93) then "bad:float_text_contains_bracket"
+          else if !nodupB texts then "bad:float_text_not_injective"
+          else if rows.any (fun a => rows.any fun b => a.2 == b.2 &&
+              !(a.1.nterm == b.1.nterm && a.1.cterm == b.1.cterm && a.1.mods.length == b.1.mods.length &&
+                (a.1.mods.zip b.1.mods).all fun xy => f32b xy.1 == f32b xy.2))
+            then "bad:display_collision"
+          else "ok"
+        pure (exact model (" ".intercalate impl) spec)
+    | ["err:invalid"] =>
+      let ok := (tryFrom H2Of tableF pos seq).isNone
+      pure { model := if ok then "err:invalid" else "ok", agree := ok, spec := if ok then "ok" else "bad:valid_sequence_rejected" }
+    | _ => pure { model := "unreadable", agree := false, spec := "bad:reply_unreadable" }
+  | "dbdigest" => do
+    let (b, prot, max, lo, hi, vars, statics) ← run (do
+      let b ← pBuilder5; let prot ← bytes; let max ← nat; let lo ← nat; let hi ← nat
+      let v ← varMods; let s ← staticMods
+      pure (b, prot, max, lo, hi, v, s)) args
+    let varsV : List (Target × Nat) := validateVar vars
+    let staticsV : List (Target × Nat) := validate statics
+    let varsF := varsV.map fun tm => (tm.1, f32b tm.2)
+    let staticsF := staticsV.map fun tm => (tm.1, f32b tm.2)
+    let max := if max == 0 then 1 else max
+    let ninf : Float32 := f32b 4286578688
+    let pinf : Float32 := f32b 2139095040
+    -- the peptides of the protein, with their positions: C05's model of `EnzymeParameters::digest`
+    let digests : Option (List (List Nat × Position)) :=
+      (b.toParams).map fun par => (Sage.C05.digest par prot).map fun d => (d.seq.map (·.toNat), posOf5 d.pos)
+    let formsOf (ds : List (List Nat × Position)) (lo hi : Float32) : List (Peptide Float32) :=
+      ds.flatMap fun d => dbForms H2Of tableF d.2 d.1 varsF staticsF max lo hi
+    let model : String :=
+      match digests with
+      | none => "panic"                 -- an `assert!` of `Enzyme::new`
+      | some [] => "panic"              -- `group_digests` indexes `digests[0]` (outside the property, FIXES.md)
+      | some ds => "ok " ++ renderPeps (formsOf ds (f32b lo) (f32b hi)) ++ " " ++ renderPeps (formsOf ds ninf pinf)
+    let spec : String :=
+      match impl, digests with
+      | "ok" :: rest, some ds =>
+        match run (do let a ← list wirePep; let b ← list wirePep; pure (a, b)) rest with
+        | none => "bad:reply_unreadable"
+        | some (kept, all) =>
+          let inRange (w : List Nat × WireForm) : Bool :=
+            decide (f32b lo ≤ f32b w.2.mono) && decide (f32b w.2.mono ≤ f32b hi)
+          let tk (w : List Nat × WireForm) : List Nat := w.1.length :: w.1 ++ wireToks w.2
+          if (all.filter inRange).map tk != kept.map tk then "bad:range_filter" else
+          match ratMods varsV, ratMods staticsV with
+          | some varsQ, some staticsQ =>
+            if varsQ.any (·.2 == 0) || staticsQ.any (·.2 == 0) then "na" else
+            if ds.any (fun d => !staticsDisjoint d.1 d.2 staticsV) then "na" else
+            -- every observed peptide is a peptide of the digestion
+            if all.any (fun w => !(ds.any fun d => d.1 == w.1)) then "bad:peptide_not_in_digest" else
+            -- per digested peptide: its observed forms are exactly the reference enumeration (as a set),
+            -- with the position the digestion gave it; masses by the formula
+            let verdicts := ds.map fun d =>
+              match allSome ((all.filter fun w => w.1 == d.1).map fun w => w.2.toRat) with
+              | none => "na"
+              | some got =>
+                if !(d.1.all fun c => Sage.Gen.VALID_AA.contains c) then
+                  (if got.isEmpty then "ok" else "bad:invalid_sequence_accepted")
+                else formsVerdict d.1 d.2 varsQ staticsQ max got false
+            match verdicts.find? (fun v => v.startsWith "bad") with
+            | some v => v
+            | none => if verdicts.all (· == "ok") then "ok" else "na"
+          | _, _ => "na"
+      | ["panic"], some [] => "na"
+      | ["panic"], none => "na"
+      | _, _ => "bad:reply_unreadable"
     pure (exact model (" ".intercalate impl) spec)
   | _ => none
 
